@@ -66,8 +66,13 @@ const CONTAINERS = [null, "$defs", "components", "definitions"];
 function mkctx(SPC, mod, cfg) {
   const ov = {};
   for (const [k, v] of Object.entries(cfg.overrides || {})) ov[k] = mod.P[v];
-  return new SPC({ refPathTemplate: cfg.refPathTemplate, definitionContainerKey: cfg.definitionContainerKey, namedTypeSchemaOverrides: ov });
+  const options = { refPathTemplate: cfg.refPathTemplate, definitionContainerKey: cfg.definitionContainerKey, namedTypeSchemaOverrides: ov };
+  const ctx = new SPC(options);
+  OPTIONS_OF.set(ctx, options);
+  return ctx;
 }
+// the options object a context was constructed from stays with the caller, who may go on using it
+const OPTIONS_OF = new WeakMap();
 function defsOf(ctx, cfg) {
   const d = ctx.exportDefinitions();
   return cfg.definitionContainerKey == null ? d : d[cfg.definitionContainerKey] ?? {};
@@ -152,6 +157,7 @@ function genC16(mods, SPC, index) {
       ops.push(o);
     }
     else if (rng.chance(1, 8)) ops.push({ op: "flat", parser: rng.pick(work) });
+    else if (rng.chance(1, 12)) ops.push({ op: "edit-options", what: rng.below(4), parser: rng.pick(work) });
     else ops.push({ op: "print", parser: rng.pick(work) });
   }
   // one run in eight uses brand-new module instances for the history and for every reference
@@ -213,6 +219,19 @@ async function execC16(mods, SPC, run) {
     }
     const P = mod.P[op.parser];
     if (!P) continue;
+    if (op.op === "edit-options") {
+      // the caller adjusts the literal it built this context from (to build the next context of
+      // another flavour): nothing the existing context does may change
+      const o = OPTIONS_OF.get(ctx);
+      if (o) {
+        out.optionEdits = (out.optionEdits || 0) + 1;
+        if (op.what === 0) o.refPathTemplate = TEMPLATES[(TEMPLATES.indexOf(cfg.refPathTemplate) + 1) % TEMPLATES.length];
+        else if (op.what === 1) o.definitionContainerKey = CONTAINERS[(CONTAINERS.indexOf(cfg.definitionContainerKey) + 1) % CONTAINERS.length];
+        else if (op.what === 2) for (const k of Object.keys(o.namedTypeSchemaOverrides)) delete o.namedTypeSchemaOverrides[k];
+        else for (const k of watch) o.namedTypeSchemaOverrides[k] = P;
+      }
+      continue;
+    }
     if (op.op === "flat") {
       // the non-contextual print of the same parser objects: must not depend on, nor disturb, the
       // contextual prints that share the runtype instances with it
@@ -413,6 +432,28 @@ function strOfBytes(rng, L) {
 }
 const NUMS = [0, -0, 1, -1, 1.5, NaN, Infinity, -Infinity, 1e21, 1e-7, 123456789.125, Number.MAX_SAFE_INTEGER, Number.MIN_VALUE, 2 ** 31, -(2 ** 31), 0.1 + 0.2];
 
+// A long string (more than any plausible internal slice / scratch size) with two-unit characters,
+// lone surrogates and three-byte characters sitting on and around multiples of powers of two of
+// the UTF-16 index: the places where an encoder that works in slices would cut.
+function longStr(rng) {
+  const B = rng.pick([256, 512, 1024, 2048, 4096, 8192, 16384, 65536]);
+  const blocks = rng.range(1, B >= 16384 ? 2 : 4);
+  const units = B * blocks + rng.range(0, 40);
+  const a = new Array(units).fill("a");
+  for (let m = 1; m <= blocks; m++) {
+    const at = m * B + rng.pick([-2, -1, -1, -1, 0, 1]);
+    if (at < 0 || at + 1 >= units) continue;
+    const kind = rng.below(4);
+    if (kind < 2) {
+      a[at] = "\ud83d";
+      a[at + 1] = "\ude00";
+    } else if (kind === 2) a[at] = rng.chance(1, 2) ? "\ud800" : "\udc00";
+    else a[at] = "\u6f22";
+  }
+  for (let k = rng.below(4); k > 0; k--) a[rng.below(units)] = rng.pick(["\u00df", "\u6f22", "\uffff", "\u0000"]);
+  return a.join("");
+}
+
 function genC13(index) {
   const rng = new Rng(ROOT, "C13", index);
   const n = rng.range(0, 40);
@@ -427,7 +468,11 @@ function genC13(index) {
       if (steer && targets.length && rng.chance(3, 4)) L = rng.pick(targets.slice(0, 6)) - total - 5;
       else if (rng.chance(1, 10)) L = rng.range(100, 1500);
       else L = rng.range(0, 70);
-      const v = strOfBytes(rng, L);
+      let v;
+      if (rng.chance(1, 30)) {
+        v = longStr(rng);
+        L = Buffer.byteLength(v);
+      } else v = strOfBytes(rng, L);
       ops.push({ op: rng.chance(1, 4) ? "tag" : "string", v });
       total += 5 + L;
     } else if (k < 7) {
@@ -462,7 +507,22 @@ function sibling(ops, p) {
   switch (p.kind) {
     case 0: // change (or add) one character of a string / tag
       if (o.op !== "string" && o.op !== "tag") return null;
-      out[i].v = o.v.length ? (o.v[0] === ch ? "#" : ch) + o.v.slice(1) : ch;
+      {
+        // prefer a character that is not ASCII (wherever it sits): another one of the same width
+        const special = [];
+        for (let k = 0; k < o.v.length && special.length < 64; k++) if (o.v.charCodeAt(k) > 127) special.push(k);
+        if (special.length && p.salt % 2 === 0) {
+          const k = special[p.salt % special.length];
+          const c = o.v.charCodeAt(k);
+          const hi = c >= 0xd800 && c <= 0xdbff, lo = c >= 0xdc00 && c <= 0xdfff;
+          let rep = null;
+          if (hi && k + 1 < o.v.length && o.v.charCodeAt(k + 1) >= 0xdc00 && o.v.charCodeAt(k + 1) <= 0xdfff) rep = String.fromCharCode(c === 0xd83d ? 0xd83e : 0xd83d);
+          else if (lo && k > 0 && o.v.charCodeAt(k - 1) >= 0xd800 && o.v.charCodeAt(k - 1) <= 0xdbff) rep = String.fromCharCode(c === 0xde00 ? 0xde01 : 0xde00);
+          else if (!hi && !lo) rep = String.fromCharCode(c === 0x6f22 ? 0x6f23 : 0x6f22);
+          if (rep == null) return null; // lone surrogates all encode alike, by definition of UTF-8 encoding
+          out[i].v = o.v.slice(0, k) + rep + o.v.slice(k + 1);
+        } else out[i].v = o.v.length ? (o.v[0] === ch ? "#" : ch) + o.v.slice(1) : ch;
+      }
       if (Buffer.from(out[i].v).equals(Buffer.from(o.v))) return null;
       break;
     case 1:
@@ -794,9 +854,10 @@ async function execStability(mods, run) {
   };
   const fresh = await pristine(base);
   const names = base.names;
+  const recorded = [];
   for (let i = 0; i < names.length; i++) {
     const P = base.P[names[i]];
-    let a, b, c, h32a, h32b;
+    let a, b, c, h32a, h32b, h32c;
     const step = (f) => {
       STEPS = 0;
       try {
@@ -809,9 +870,11 @@ async function execStability(mods, run) {
       a = step(() => P.hash256());
       h32a = step(() => P.hash());
       step(() => base.P[names[(i + 1) % names.length]].hash256());
+      step(() => base.P[names[(i + 1) % names.length]].hash());
       b = step(() => P.hash256());
       h32b = step(() => P.hash());
       c = step(() => fresh.P[names[i]].hash256());
+      h32c = step(() => fresh.P[names[i]].hash());
     } catch (e) {
       if (e instanceof StepBudgetExceeded) {
         const paths = denseFeature(base.id, P);
@@ -826,7 +889,27 @@ async function execStability(mods, run) {
     out.hashed++;
     if (typeof a !== "string" || !/^[0-9a-f]{64}$/.test(a)) viol("hash256-is-not-a-sha256-hex-string", { module: base.id, parser: names[i], value: a });
     if (a !== b || h32a !== h32b) viol("hash-depends-on-earlier-calls", { module: base.id, parser: names[i], first: a, again: b });
-    if (a !== c) viol("hash-differs-on-a-fresh-module-instance", { module: base.id, parser: names[i], first: a, fresh: c });
+    if (a !== c || h32a !== h32c) viol("hash-differs-on-a-fresh-module-instance", { module: base.id, parser: names[i], first: a, fresh: c, first32: h32a, fresh32: h32c });
+    recorded.push({ name: names[i], a, h32a });
+  }
+  // once more on another brand-new instance, in the opposite order: what a parser's hash is must
+  // not depend on which parser of the module was hashed first
+  if (recorded.length >= 2 && !out.budgetExceeded) {
+    const other = await pristine(base);
+    for (const r of [...recorded].reverse()) {
+      try {
+        STEPS = 0;
+        const h32 = other.P[r.name].hash();
+        STEPS = 0;
+        const h = other.P[r.name].hash256();
+        if (h !== r.a || h32 !== r.h32a) {
+          viol("hash-depends-on-the-order-parsers-are-hashed-in", { module: base.id, parser: r.name, forward: [r.a, r.h32a], backward: [h, h32] });
+          break;
+        }
+      } catch (e) {
+        break;
+      }
+    }
   }
   return out;
 }
@@ -1039,6 +1122,8 @@ async function main() {
       agg.throws += r.throws || 0;
       agg.exports += r.exports || 0;
       agg.flat = (agg.flat || 0) + (r.flat || 0);
+      agg.exportEdits = (agg.exportEdits || 0) + (r.exportEdits || 0);
+      agg.optionEdits = (agg.optionEdits || 0) + (r.optionEdits || 0);
       agg.writes += r.writes || 0;
       agg.bytes += r.bytes || 0;
       agg.siblings = (agg.siblings || 0) + (r.siblings || 0);
@@ -1193,6 +1278,8 @@ async function main() {
             prints_that_threw_midway: agg.throws,
             export_calls: agg.exports,
             flat_schema_calls_interleaved: agg.flat || 0,
+            exports_edited_by_the_caller: agg.exportEdits || 0,
+            options_object_edited_after_construction: agg.optionEdits || 0,
             runs_with_overrides: agg.overrides,
             runs_on_brand_new_module_instances: agg.pristine || 0,
             refs_resolved: agg.refs,
